@@ -99,6 +99,11 @@ func (l *Loader) overlayContent(path string) (string, bool) {
 	return overlay(path)
 }
 
+// Limits returns the limits in force.
+func (l *Loader) Limits() Limits {
+	return l.getLimits()
+}
+
 func (l *Loader) getLimits() Limits {
 	l.mu.RLock()
 	defer l.mu.RUnlock()
